@@ -20,7 +20,7 @@ META = {
     "exhaustive": {"quick": True, "thorough": True},
     "space": {"quick": "all rooted ordered trees <=6 nodes; all arrays over {0,1,2} up to length 7, all ranges", "thorough": "all rooted ordered trees <=8 nodes; all arrays over {0,1,2} up to length 9, all ranges (incl. empty and reversed)"},
     "assumptions": ["R-TREE parent-chain definitions"],
-    "timeout": {"quick": 600, "thorough": 3600},
+    "timeout": {"quick": 420, "thorough": 3600},
 }
 
 
